@@ -1,5 +1,5 @@
 ---------------------------- MODULE MC_MultiEventX ----------------------------
-(* The contract MultiEventX on its own: threads call the object freely (bounded number of calls), effect points  *)
+(* The contract MultiEventX on its own: threads call the object freely (MaxCalls calls in all) , effect points  *)
 (* and returns interleave in every order, the clock ticks.  Checked: the contract's invariants, every action of   *)
 (* it is taken (-coverage), and a call in flight can always make progress except a wait() without any limit       *)
 (* while something is outstanding (NoContractDeadlock).                                                            *)
@@ -8,10 +8,10 @@ CONSTANTS Ids, ActIds, RaisingActs, NewTimeouts, WaitTimeouts, Dto, MaxCalls, Ma
 VARIABLE ncalls
 mvars == <<xvars, ncalls>>
 
-MInit == XInit /\ dto = Dto /\ ncalls = [th \in Threads |-> 0]
+MInit == XInit /\ dto = Dto /\ ncalls = 0
 Still == now' = now
 MBegin(th) ==
-   /\ ncalls[th] < MaxCalls /\ ncalls' = [ncalls EXCEPT ![th] = @ + 1] /\ Still
+   /\ ncalls < MaxCalls /\ ncalls' = ncalls + 1 /\ Still
    /\ \/ \E e \in Ids \ created, to \in NewTimeouts : /\ \A y \in Threads : ~(call[y].op = "new" /\ call[y].e = e)
                                                      /\ Begin(th, now, "new", e, "", to, "")
       \/ \E e \in created : Begin(th, now, "set", e, "", 0, "") \/ Begin(th, now, "clear", e, "", 0, "")
